@@ -29,6 +29,13 @@
 //!                       still pending that one is polled again instead (n ignored)
 //!   14,t                drop the StreamingPayload of t (and its pending chunk send, if any)
 //!   15,t                drop the pending chunk send of t
+//!   17,id               the peer writes a well-formed QoS 1 PUBLISH (topic "a", payload "x", packet id `id` as u16): an
+//!                       INBOUND request; the publish handler of the server answers at once with Ok, so the PUBACK(id)
+//!                       is written as the response (wire entry 104,id).  Ignored (on both sides of the comparison)
+//!                       when id = 0, when the connection is not open, while a streamed payload is owed (the codec would
+//!                       refuse the PUBACK and io.rs would end the connection with the encode error), and for role 1
+//!                       (a client run with `start_default` hands an inbound PUBLISH to the default control service,
+//!                       which answers every message with a disconnect)
 //! observation: one field per operation:
 //!   n_inflight,n_waiters,cap,wrb,streaming,credit,is_ready,is_open, {t,status}* , 255, {tag,id}*
 //!   a streaming task t is followed by the entry 100+t,<status of its last chunk send>
@@ -36,7 +43,8 @@
 //!           7 other (StreamingCancelled), 9 panicked
 //!   wire tags: 1 PUBLISH qos1, 2 PUBLISH qos2, 3 PUBLISH qos0, 4 PUBREL, 5 SUBSCRIBE, 6 UNSUBSCRIBE,
 //!              7,reason DISCONNECT (v5: the reason code, 0 when the packet has no body; v3: 0),
-//!              8,len streamed payload bytes; anything else 100+type,0
+//!              8,len streamed payload bytes; 104,id PUBACK (the answer to an inbound PUBLISH, op 17);
+//!              anything else 100+type,0
 use std::cell::RefCell;
 use std::collections::BTreeMap;
 use std::future::Future;
@@ -370,7 +378,7 @@ impl Wire {
                 if self.buf.len() < pos + rl {
                     return;
                 }
-                let id = if rl >= 2 && matches!(tp, 6 | 8 | 10) {
+                let id = if rl >= 2 && matches!(tp, 4 | 6 | 8 | 10) {
                     ((self.buf[pos] as u64) << 8) | self.buf[pos + 1] as u64
                 } else if tp == 14 && self.v5 && rl >= 1 {
                     // DISCONNECT: the slot carries the reason code (v3 has none: 0)
@@ -409,6 +417,7 @@ fn ack_bytes(v5: bool, k: u64, id: u64) -> Vec<u8> {
 }
 
 async fn drive<A: Api>(api: A, peer: IoTest, v5: bool, c: &Fields) -> Fields {
+    let role = c.first().and_then(|f| f.get(1)).copied().unwrap_or(0);
     let mut tasks: BTreeMap<u64, Task> = BTreeMap::new();
     let mut wire = Wire { v5, buf: Vec::new(), payload_left: 0 };
     let mut obs = Fields::new();
@@ -523,6 +532,19 @@ async fn drive<A: Api>(api: A, peer: IoTest, v5: bool, c: &Fields) -> Fields {
                 {
                     guarded_drop(f);
                     task.chunk_status = 0;
+                }
+            }
+            17 => {
+                let id = arg(op, 1) as u16;
+                let streaming = api.state().4;
+                if id != 0 && role == 0 && api.is_open() && !streaming {
+                    let (h, l) = ((id >> 8) as u8, id as u8);
+                    if v5 {
+                        // QoS 1 PUBLISH, topic "a", packet id, no properties, payload "x"
+                        peer.write([0x32, 7, 0, 1, b'a', h, l, 0, b'x']);
+                    } else {
+                        peer.write([0x32, 6, 0, 1, b'a', h, l, b'x']);
+                    }
                 }
             }
             // self-test of the case isolation in `run_lines` (never generated)
